@@ -17,6 +17,57 @@ TRUSTED = ["translator translator/pyfun.py + the type table in translator/eval_g
 ASSUMES = ["binary trees", "infinity.inf adds like an extended integer"]
 RULE = ("cases = (species tree, object tree with leaf species, a species for every object node [valid ones from an enumerator independent of the package, plus invalid ones], "
         "optionally a synteny for every node, cost vector); non-trivial = at least one duplication or transfer, or a labelled case with at least one lost run")
+
+def _cli_cases(rng, n):
+    """command-line runs for the clause "the reported minimum cost of the command-line tool is this value for the solutions it
+    writes": C12's generator of documented-format inputs, half of them with unit costs that give totals of many significant
+    digits (large integers, fractions that are not dyadic); DP solvers only inside the coherent region (F-COHERENCE)"""
+    from . import c12
+    cases = []
+    k = 0
+    while len(cases) < n:
+        k += 1
+        c = c12.gen_cli_case(rng, k)
+        if c["algo"] not in c12.PLAIN_ALGOS + c12.SUPER_ALGOS:
+            continue
+        if len(cases) % 2 == 0:
+            nm = rng.choice(["dup", "floss", "hgt"])
+            c["costs"][nm] = rng.choice({"dup": [1234567, "10**7+1", "7/3"], "floss": [100003, "1/3", "2/7"], "hgt": [7654321, "1/3", "10**8+7"]}[nm])
+        if c["algo"] in c12.DP_ALGOS and not R.coherent(c12._full_costs(c), plain=(c["algo"] == "thl")):
+            continue
+        cases.append(c)
+    return cases
+
+
+def _cli_one(c):
+    from . import c12
+    res = c12.impl_cli(c)
+    ok, why = c12.oracle_cli(c, res)
+    return ok, why, {pol: {"status": r["status"], "printed": c12.printed_cost(r["stderr"]), "stdout": r["stdout"][:2000]} for pol, r in res.items()}
+
+
+def extra(ctx):
+    """the evaluator's value through the command line (implementation only, judged by C12's oracle written from the property text)"""
+    import multiprocessing as mp
+    from .. import core
+    from ..core import Finding
+    cases = _cli_cases(ctx.rng, 64 if ctx.quick() else 1200)
+    bad = 0
+    with mp.get_context("fork").Pool(core.NPROC) as pool:
+        for c, (ok, why, brief) in zip(cases, pool.map(_cli_one, cases, chunksize=2)):
+            ctx.evaluations += 1
+            if ok is False:
+                bad += 1
+                if bad <= 3:
+                    ctx.findings.append(Finding("cli_reported_cost", c, brief, "(the printed minimum is the evaluated cost of every written solution)", False, why))
+    ctx.notes.append(f"command-line stage: {len(cases)} runs of `reconcile` (both --solutions policies; half with many-digit unit costs), {bad} failures")
+
+
+def replay_case(payload):
+    case = payload["case"]
+    ok, why, brief = _cli_one(case)
+    return ok is not False, f"reconcile {case['algo']} with cost options {case['costs']}: {why}", brief
+
 OPEN_GOALS: list = []
 TECHNIQUE = "translator tie: the evaluator is regenerated into Gallina on every run and proved equal to the model; Coq proof (induction on reconciliations; bit/list induction for masks) that the evaluator model equals an explicit recount; model tied to node_event/cost()/labeling_cost() by exhaustive small + random cases"
 LEVEL_TEXT = ("The evaluator itself (node_event, _cost_rec, cost, reconciliation_cost, _ordered_labeling_cost, _unordered_labeling_cost, labeling_cost) is translated from the source on every run and proved equal to the model for all inputs (C06_gen_*; the unordered count under sloss >= 0: with a negative segmental-loss cost code and model differ, kernel-checked example negative_sloss_differs, outside every property's domain). Machine-checked for all trees and cost vectors: the evaluator's cost of a valid reconciliation = unit costs x event counts + full-loss cost x the length of explicit loss lists; "
